@@ -112,6 +112,18 @@ def apply_mod(f, mod):
             d = f.get_data(None)
             if d is not None and d.dtype.kind in "fiu":
                 f.set_property(mod[1], np.array(mod[2]).astype(d.dtype).item() if d.dtype.kind in "iu" else float(mod[2]))
+        elif op == "extmsr":  # an external cell measure [ncvar, with data?, measure]
+            C_ = cfdm()
+            axes = [k for k, a in sorted(f.domain_axes(todict=True).items()) if a.get_size() > 1][:2]
+            if axes and hasattr(f, "cell_measures"):
+                # one external name denotes one variable of the external file: the measure goes with the name
+                cm = C_.CellMeasure(measure="volume" if str(mod[1]).startswith("vol") else "area", properties={"units": "km2"})
+                cm.nc_set_variable(mod[1])
+                cm.nc_set_external(True)
+                if len(mod) > 2 and mod[2]:
+                    shp = [f.domain_axes(todict=True)[a].get_size() for a in axes]
+                    cm.set_data(C_.Data(np.arange(int(np.prod(shp)), dtype="f8").reshape(shp) + 1.0), copy=False)
+                f.set_construct(cm, axes=axes)
         elif op == "delcoord":
             cs = _coords(f, ("auxiliary_coordinate", "cell_measure", "field_ancillary"))
             if cs:
@@ -199,6 +211,7 @@ def _base_spec(rng, classic, exs):
     return _rand_spec(rng, classic)
 
 
+EXT_NAMES = ["areacella", "areacello", "volcello"]
 NAMES = ["ta", "q", "ua", "lat", "lon", "time", "x", "y", "bounds2", "dim", "data", "auxiliary", "a", "b", "lat_bnds"]
 
 
@@ -263,6 +276,8 @@ def random_scenario(rng, tier="quick"):
             mods.append(["global", rng.choice(["project", "extra", "comment"])] + ([rng.choice(["forced", "first"])] if rng.random() < 0.5 else []))
         if rng.random() < 0.08:
             mods.append(["ft", rng.choice(["timeSeries", "profile"])])
+        if rng.random() < 0.14:
+            mods.append(["extmsr", rng.choice(EXT_NAMES), rng.random() < 0.3])
         if rng.random() < 0.05 and s0 == []:
             mods.append(["orogfield"])
         if mods:
@@ -283,6 +298,8 @@ def random_scenario(rng, tier="quick"):
             else:
                 fs = _base_spec(rng, classic, exs)
                 fs["mods"] = random_mods(rng, False)
+            if rng.random() < 0.16:
+                fs["mods"].append(["extmsr", rng.choice(EXT_NAMES), rng.random() < 0.4, rng.choice(["area", "area", "volume"])])
             # refusals and feature types
             r = rng.random()
             if r < 0.07 and not classic:
@@ -294,4 +311,6 @@ def random_scenario(rng, tier="quick"):
     spec = {"fmt": fmt, "s0": s0, "batches": batches}
     if rng.random() < 0.1:
         spec["mode"] = "r+"
+    if rng.random() < 0.25:
+        spec["external"] = True  # appends (and their mode-'w' twins) are given an external= file
     return spec
